@@ -43,9 +43,21 @@ Deterministic(ci, k) ==
   IN Det(FreshIter(ci, k))
 ASSUME \A ci \in DOMAIN Cfgs : Buildable(ci) => \A k \in DOMAIN Inputs : Deterministic(ci, k)
 
+\* two patterns of one mode report the same token type: only the verdict of the build is checked
+\* for such a configuration (C15), it is not scanned (DESIGN 0.35)
+SharesTypes(ci) ==
+  \E m \in 1..NModes(ci) : LET ps == ModeOf(ci, m - 1).pats IN
+    \E p, q \in DOMAIN ps : p # q /\ ps[p].tt = ps[q].tt
+
 CInit == Init /\ hist = <<>> /\ nbuilt = 0
 
-Scans(ci, s) == [k \in DOMAIN Inputs |-> [op |-> "scan", sc |-> s, w |-> W(k), toks |-> StreamTab[ci][k]]]
+\* what else a scanner shows of its configuration: the mode names, and peek_n(2) at the start
+\* of every probe input (a transition into the active mode ends the peek, C11)
+NamesOf(ci) == [m \in 1..NModes(ci) |-> ModeOf(ci, m - 1).name]
+PeekTab == TLCEval([ci \in DOMAIN Cfgs |->
+             IF Buildable(ci) THEN TLCEval([k \in DOMAIN Inputs |-> SetToSeq(PeekResults(FreshIter(ci, k), 2))]) ELSE <<>>])
+Scans(ci, s) == [k \in DOMAIN Inputs |-> [op |-> "scan", sc |-> s, w |-> W(k), toks |-> StreamTab[ci][k],
+                                           names |-> NamesOf(ci), peekadm |-> PeekTab[ci][k]]]
 
 CNext ==
   /\ nbuilt < MaxBuilds
@@ -53,7 +65,7 @@ CNext ==
        LET ok == Buildable(ci) IN
        /\ Build(ci, TRUE, ok)
        /\ hist' = Append(hist, [op |-> "build", cfg |-> ci, cached |-> TRUE, ok |-> ok, twin |-> TRUE])
-                  \o (IF ok THEN Scans(ci, Len(scanners) + 1) ELSE <<>>)
+                  \o (IF ok /\ ~SharesTypes(ci) THEN Scans(ci, Len(scanners) + 1) ELSE <<>>)
        /\ nbuilt' = nbuilt + 1
 
 \* C13 as an invariant of the specification: what was built successfully through the cache is
